@@ -202,7 +202,8 @@ class Runner {
   // ---- E2: run every index of a finite space -------------------------------------------
   // returns the merged Out of this space (also merged into total)
   typedef std::function<void(const std::string&)> EmitFn;
-  Out space(const std::string& name, uint64_t size, CaseFn fn, double caseTimeout = 5.0, uint64_t chunk = 0, bool isE1level = false, EmitFn onEmit = EmitFn()) {
+  typedef std::function<std::string(uint64_t)> WitFn;
+  Out space(const std::string& name, uint64_t size, CaseFn fn, double caseTimeout = 5.0, uint64_t chunk = 0, bool isE1level = false, EmitFn onEmit = EmitFn(), WitFn wit = WitFn()) {
     Out res;
     if (replay) {
       if (name != replaySpace || isE1level) return res;
@@ -212,7 +213,7 @@ class Runner {
     }
     SpaceStat st; st.name = name; st.size = size;
     double ts = now_s();
-    runParallel(name, size, fn, caseTimeout, chunk, res, st, onEmit);
+    curWit = wit; runParallel(name, size, fn, caseTimeout, chunk, res, st, onEmit); curWit = WitFn();
     st.wall = now_s() - ts; st.evals = res.evals; st.nontrivial = res.nontrivial;
     if (!isE1level) { stats.push_back(st); mergeTotal(res); }
     else lastLevel = st;
@@ -298,7 +299,8 @@ class Runner {
           Hist h = frontier[f]; h.push_back((uint16_t)op); next.push_back(std::move(h));
         }
       };
-      Out lv = space(lname, frontier.size() * (uint64_t)nops, fn, caseTimeout, 0, true, onEmit);
+      auto wit = [&, fr](uint64_t i) { const Hist& h = (*fr)[i / (uint64_t)nops]; std::string w; for (uint16_t o : h) { w += str(o); w += '.'; } return w + str((int)(i % (uint64_t)nops)); };
+      Out lv = space(lname, frontier.size() * (uint64_t)nops, fn, caseTimeout, 0, true, onEmit, wit);
       bool levelComplete = lastLevel.complete;
       st.crashes += lastLevel.crashes; st.hangs += lastLevel.hangs;
       lv.emitted.clear();
@@ -345,7 +347,7 @@ class Runner {
   }
 
  private:
-  SpaceStat lastLevel;
+  SpaceStat lastLevel; WitFn curWit;
   std::vector<std::pair<std::string, uint64_t>> expected;
   void mergeTotal(const Out& o) { Out c = o; c.emitted.clear(); total.merge(c); }
   static std::string digest(const std::string& s) { char b[40]; snprintf(b, sizeof b, "%016llx%016llx", (unsigned long long)h64a(s), (unsigned long long)h64b(s)); return b; }
@@ -486,12 +488,12 @@ class Runner {
         if (onEmit) { for (auto& e : alone.emitted) onEmit(e); alone.emitted.clear(); }
         res.merge(alone);
         if (rs == 0) { ++slowDone; /* slow, not hanging: results merged */ }
-        else if (rs == 99) { st.hangs++; hangConfirmed[site]++; Viol v; v.sig = "hang|" + site; v.space = name; v.witness = str(k); v.detail = "case did not return within " + num(caseTimeout * 10) + " s (site: " + site + ")"; crashViols.push_back(v); }
-        else { st.crashes++; Viol v; v.sig = "crash|" + site + "|after-timeout"; v.space = name; v.witness = str(k); v.detail = "case died when re-run alone"; crashViols.push_back(v); }
+        else if (rs == 99) { st.hangs++; hangConfirmed[site]++; Viol v; v.sig = "hang|" + site; v.space = name; v.witness = curWit ? curWit(k) : str(k); v.detail = "case did not return within " + num(caseTimeout * 10) + " s (site: " + site + ")"; crashViols.push_back(v); }
+        else { st.crashes++; Viol v; v.sig = "crash|" + site + "|after-timeout"; v.space = name; v.witness = curWit ? curWit(k) : str(k); v.detail = "case died when re-run alone"; crashViols.push_back(v); }
       } else if (k < b) {
         st.crashes++;
         std::string kind = classify(tail, status);
-        Viol v; v.sig = "crash|" + site + "|" + kind; v.space = name; v.witness = str(k);
+        Viol v; v.sig = "crash|" + site + "|" + kind; v.space = name; v.witness = curWit ? curWit(k) : str(k);
         v.detail = "worker died (" + kind + ") at site '" + site + "'; frames: " + firstFrames(tail);
         size_t p1 = tail.find("ERROR:"); if (p1 == std::string::npos) p1 = tail.find("runtime error"); if (p1 == std::string::npos) p1 = tail.size() > 300 ? tail.size() - 300 : 0;
         v.detail += " | " + tail.substr(p1, 300);
